@@ -11,14 +11,18 @@
 (* error of TLC.  cur_line_/cur_column_ are not modelled (they are written, never read).              *)
 (*                                                                                                    *)
 (* CONSTANT Fixes selects the code that is transcribed.  Fixes = {} is the pinned tree.  Each element *)
-(* is one proposed repair (/verif/patches/C25-*.diff, C39-*.diff), transcribed at the place the patch *)
-(* changes; with all of them the three properties hold on every explored text:                        *)
-(*   "nullcheck"  read_property_value / read_tuple_property_value test the list / value for nil       *)
-(*   "bufgood"    read_next_char accepts a put-back character whatever the state of the stream        *)
-(*   "eol"        an end of line that follows a line continuation ends the string                     *)
-(*   "tuplelist"  adjacent string/list items of a tuple are one list (the writer cannot tell them      *)
-(*                apart)                                                                              *)
-(*   "reescape"   the writer escapes what the reader would otherwise interpret                        *)
+(* is one proposed repair (/verif/patches), transcribed at the place the patch changes; with all of   *)
+(* them (AllFixes: the specification) the three properties hold on every explored text:               *)
+(*   "nullcheck"  C25-ini-null-value.diff          read_property_value tests the list for nil; the     *)
+(*                                                 tuple loop stops at an item that is no value        *)
+(*   "bufgood"    C25-ini-trailing-backslash.diff  read_next_char accepts a put-back character         *)
+(*                                                 whatever the state of the stream                    *)
+(*   "eol"        C39-eol-after-continuation.diff  an end of line that follows a line continuation     *)
+(*                                                 ends the string                                     *)
+(*   "tuplelist"  C39-tuple-adjacent-items.diff    adjacent string/list items of a tuple are one list  *)
+(*                                                 (what the writer's output reads back as)            *)
+(*   "reescape"   C39-writer-escape.diff           the writer escapes what the reader would otherwise  *)
+(*                                                 interpret                                           *)
 (*                                                                                                    *)
 (* Values.  A configuration is a sequence of sections [name, props]; a property is [name, v]; a value *)
 (* v is a record [k, s, strs, items] with k in "str" (s: the string), "list" (strs: the strings),     *)
